@@ -185,6 +185,8 @@ LEMMAS = {
            'induction over the iterations (DESIGN.md 8.7).',
     'C13': 'Also: the step lemma of run_instructions with the halt flag as a monotone function of time sampled by the loads (DESIGN.md 8.7); Env::new / '
            'create_runtime keep the very halt flag the embedder passed (pointer identity) for every combination of writers.',
+    'C05': 'Also: call, return and end of a function as single steps from an arbitrary call stack (entries pushed by the real push_to_call_stack from symbolic '
+           'values), arbitrary variables and scope stack: recursion of any depth and call sequences of any length by induction (DESIGN.md 8.18).',
     'C06': 'Also: per-token lemmas of eval_condition_for_slice from an arbitrary evaluator state (START / AT / AND / OR / GROUP(k)) with the recursive group '
            'evaluation as an arbitrary result: statements of any length and nesting depth by induction (DESIGN.md 8.8).',
     'C11': 'Also: every operation kind once from an arbitrary variable map and an arbitrary scope stack of depth 0-2, stack compared entry by entry afterwards '
